@@ -20,4 +20,33 @@ def run(pid, path):
         except AssertionError as e:
             print("REPRODUCED:", e)
             return 1
+    cname = payload.get("contract")
+    if cname:
+        # a contract witness: the monitor is run again over the contract's (deterministic) pool on the tree under test
+        print("--- re-running the contract natively over its pool ---")
+        from checker.main import load_contracts
+        from pyvc.contracts import REG
+        from runtime import monitor, pools
+        load_contracts()
+        cs = [c for c in REG.values() if c.name == cname]
+        if not cs:
+            print(f"no contract named {cname}")
+            return 3
+        c = cs[0]
+        tried = 0
+        for fn, args in pools.pool(c, limit=20000):
+            try:
+                r = monitor.check_call(c, fn, args)
+            except Exception:
+                continue
+            if r == "skip":
+                continue
+            tried += 1
+            if isinstance(r, dict):
+                print("REPRODUCED after", tried, "evaluations:", json.dumps(r, indent=1)[:1500])
+                return 1
+        print(f"{tried} evaluations, no violation of {cname}: the violation no longer reproduces")
+        if payload.get("smt_file"):
+            print("(the failed obligation and the solver output are in the replay file: smt_file / solver_output)")
+        return 0
     return 1 if wit else 0
